@@ -45,7 +45,26 @@ type C10Case struct {
 	Rotate bool `json:"rotate,omitempty"`
 	// SDE: SOURCE_DATE_EPOCH set in the environment while signing
 	SDE string `json:"source_date_epoch,omitempty"`
+	// KeyName (apk): class of the key name the signature entry is named after ("" = origin)
+	KeyName string `json:"key_name,omitempty"`
 }
+
+// c10KeyNames: apk key names. A name the tar header of the signature entry cannot carry must make signing fail,
+// not move the signature out of the first header block.
+var c10KeyNames = map[string]string{
+	"suffixed":        "origin.rsa.pub",
+	"mail":            "builder@example.com",
+	"from-maintainer": "",
+	"len82":           strings.Repeat("k", 82),
+	"len83":           strings.Repeat("k", 83),
+	"len90":           strings.Repeat("k", 90),
+	"len99":           strings.Repeat("k", 99),
+	"len160":          strings.Repeat("k", 160),
+	"non-ascii":       "schl\u00fcssel@example.com",
+	"slash":           "dir/key",
+	"space":           "my key",
+}
+var c10KeyNameOrder = []string{"suffixed", "mail", "from-maintainer", "len82", "len83", "len90", "len99", "len160", "non-ascii", "slash", "space"}
 
 type c10Key struct {
 	file, pub string
@@ -143,6 +162,18 @@ func init() {
 			for _, k := range c10APKKeys {
 				for pl := 0; pl < 4; pl++ {
 					if !yield(C10Case{Format: "apk", Method: "apk", Key: k, Payload: pl, Via: "file", FailJ: -1}) {
+						return
+					}
+				}
+			}
+			// apk key names: the signature entry is named after them and must stay the first header block
+			for _, kn := range c10KeyNameOrder {
+				for _, via := range []string{"file", "signfn"} {
+					k := "pkcs1"
+					if via == "signfn" {
+						k = "armored"
+					}
+					if !yield(C10Case{Format: "apk", Method: "apk", Key: k, Payload: 1, Via: via, FailJ: -1, KeyName: kn}) {
 						return
 					}
 				}
@@ -361,8 +392,19 @@ func checkC10(env *engine.Env, ci any) engine.Outcome {
 	if c.SigType != "" {
 		sigm["type"] = c.SigType
 	}
+	wantSigName := ".SIGN.RSA.origin.rsa.pub"
 	if f == "apk" {
 		sigm["key_name"] = "origin"
+		if c.KeyName != "" {
+			kn := c10KeyNames[c.KeyName]
+			if kn == "" {
+				delete(sigm, "key_name")
+				kn = "jane@example.com" // the address of the configured maintainer
+			} else {
+				sigm["key_name"] = kn
+			}
+			wantSigName = ".SIGN.RSA." + strings.TrimSuffix(kn, ".rsa.pub") + ".rsa.pub"
+		}
 	}
 	blk["signature"] = sigm
 	d[blockName] = blk
@@ -456,7 +498,7 @@ func checkC10(env *engine.Env, ci any) engine.Outcome {
 	if c.Via == "signfn" && c.FailJ >= 0 {
 		expectFail = true
 	}
-	out.Key = fmt.Sprintf("%s:%s:%s:%d:%s:%s:%s:%d:%v:%s:err=%v", f, c.Method, c.Key, c.Payload, c.Comp, c.Via, c.SigType, c.FailJ, c.Rotate, c.SDE, perr != nil)
+	out.Key = fmt.Sprintf("%s:%s:%s:%d:%s:%s:%s:%d:%v:%s:%s:err=%v", f, c.Method, c.Key, c.Payload, c.Comp, c.Via, c.SigType, c.FailJ, c.Rotate, c.SDE, c.KeyName, perr != nil)
 	if expectFail {
 		why := "signing cannot succeed"
 		if perr == nil {
@@ -471,6 +513,19 @@ func checkC10(env *engine.Env, ci any) engine.Outcome {
 		if c.Via == "signfn" && c.FailJ >= 0 {
 			if !errors.Is(perr, sentinel) && !errors.Is(sf.Err, sentinel) {
 				viol("sig:failure-loses-cause:"+c.Method, "the signing failure %q does not carry the signer's own error", perr)
+			}
+		}
+		return out
+	}
+	if perr != nil && c.KeyName != "" {
+		// a key name the signature entry's header cannot carry: refusing is fine, as a signing failure
+		switch c.KeyName {
+		case "suffixed", "mail", "from-maintainer", "len82", "space":
+			viol("sig:signing-fails:apk:key-name:"+c.KeyName, "key name %q fits the signature entry's header, Package failed: %v", c10KeyNames[c.KeyName], perr)
+		default:
+			var sf *nfpm.ErrSigningFailure
+			if !errors.As(perr, &sf) {
+				viol("sig:failure-untyped:apk:key-name:"+c.KeyName, "Package returned %q which is not identifiable as *nfpm.ErrSigningFailure", perr)
 			}
 		}
 		return out
@@ -626,8 +681,8 @@ func checkC10(env *engine.Env, ci any) engine.Outcome {
 			viol("sig:callback-bytes:rpm", "the signing callback received %d call(s) (%v bytes); expected the header (%d) and header+payload (%d)", len(captured), lens(captured), len(r.Hdr.Raw), len(full))
 		}
 	case "apk":
-		if pkg.SigName != ".SIGN.RSA.origin.rsa.pub" {
-			viol("sig:member-name:apk", "signature entry is %q, expected .SIGN.RSA.origin.rsa.pub first in the stream", pkg.SigName)
+		if pkg.SigName != wantSigName {
+			viol("sig:member-name:apk", "signature entry is %q, expected %s first in the stream", pkg.SigName, wantSigName)
 			return out
 		}
 		pubFile := key.pub
